@@ -121,8 +121,18 @@ def run_snip(case, stt):
         stt.label("skip_rounded_out_of_range")
         return
     n_arg = np.int64(n) if case["form"] in ("npint", "npfloat") else n
-    with lib("snippet"):
-        y = pb.snippet(z, arg, n_arg)
+    strict = (case["i"] + 2 * case["n"] + len(case["form"])) % 3 == 0 and bool(np.all(np.isfinite(x)))
+    with lib("snippet" + (" under np.errstate(all='raise') with RuntimeWarnings as errors" if strict else "")):
+        if strict:
+            # a valid request on finite data gives no floating-point error or warning: it works the same whatever the caller's error state
+            import warnings
+
+            with np.errstate(all="raise"), warnings.catch_warnings():
+                warnings.simplefilter("error", RuntimeWarning)
+                y = pb.snippet(z, arg, n_arg)
+            stt.label("strict_fp_state")
+        else:
+            y = pb.snippet(z, arg, n_arg)
     contract(y, "snippet")
     check(len(y) == n, "snippet returned {} samples, requested {}", len(y), n)
     check(type(y) is type(z) and y.shape[1:] == z.shape[1:], "type/sample shape changed")
